@@ -95,8 +95,25 @@ class Hub:
         for n in endpoints:
             self.hub.endpoints[n] = Double(n, inbox[n])
         self.sink_log = {s: [] for s in sinks}
-        self.sink_fn = {s: (lambda v, _s=s: self.sink_log[_s].append(v)) for s in sinks}
-        self.src_fn = {s: (lambda _s=s: _s) for s in sources}
+        # handles are bound methods: every mention builds a fresh (equal, not identical) object, as a caller re-registering
+        # `subscriber.on_data` would - "already registered" is a matter of equality
+        hub_self = self
+
+        class _Sink:
+            def __init__(self, s):
+                self.s = s
+
+            def on_data(self, v):
+                hub_self.sink_log[self.s].append(v)
+
+        class _Source:
+            def __init__(self, s):
+                self.s = s
+
+            def produce(self):
+                return self.s
+        self._sinks = {s: _Sink(s) for s in sinks}
+        self._sources = {s: _Source(s) for s in sources}
 
     def apply(self, op, a, b):
         h = self.hub
@@ -105,9 +122,9 @@ class Hub:
         if op == "deleteForwardingRule":
             return _b(h.deleteForwardingRule(a, b))
         if op == "setDataSink":
-            return _b(h.setDataSink(a, self.sink_fn[b]))
+            return _b(h.setDataSink(a, self._sinks[b].on_data))
         if op == "setDataSource":
-            return _b(h.setDataSource(a, self.src_fn[b]))
+            return _b(h.setDataSource(a, self._sources[b].produce))
         if op == "getData":
             r = h.getData(a)
             return ND if r is None else enc(r)
